@@ -193,15 +193,38 @@ pub fn gen_aln(rng: &mut Rng, coord_max: usize, size: usize) -> (AlnSet, String)
     (AlnSet { refs, recs, flush_after, level: *rng.pick(&[0u8, 1, 1, 6]) }, shape)
 }
 
+/// ALT columns that say nothing about the span: missing, plain bases, symbolic alleles, breakends, mixed lists.
+pub const ANY_ALT: [&str; 12] = [".", ".", "T", "TAC", "<DEL>", "<NON_REF>", "<*>", "A]chr0:12345]", "[chr0:777[C", "T,<DEL>", "G,<NON_REF>", "<DUP>,T"];
+
+pub fn alt_class(alt: &str) -> &'static str {
+    let syms = alt.split(',').filter(|a| a.starts_with('<')).count();
+    let n = alt.split(',').count();
+    if alt == "." {
+        "missing"
+    } else if alt.contains('[') || alt.contains(']') {
+        "breakend"
+    } else if syms == 0 {
+        "plain-bases"
+    } else if syms == n {
+        "symbolic"
+    } else if alt.starts_with('<') {
+        "mixed-symbolic-first"
+    } else {
+        "mixed-symbolic-later"
+    }
+}
+
 pub fn gen_var(rng: &mut Rng, coord_max: usize, size: usize) -> (VarSet, String) {
     let ncontigs = *rng.pick(&[1usize, 2, 3, 4, 6]);
     let contigs: Vec<String> = (0..ncontigs).map(|i| if i % 2 == 0 { format!("chr{i}") } else { format!("ctg.{i}_x") }).collect();
     let minor = *rng.pick(&[2u32, 3, 4, 5]);
+    let sample = minor == 5 && rng.bool();
     let fat = rng.chance(1, 3);
     let mut recs = Vec::new();
     let mut k = 0usize;
     let mut shape: Vec<String> = Vec::new();
     let mut any = false;
+    let mut alt_classes: std::collections::BTreeMap<&'static str, usize> = Default::default();
     for c in 0..ncontigs {
         let empty = ncontigs > 1 && rng.chance(1, 4) && !(c == ncontigs - 1 && !any);
         if empty {
@@ -212,22 +235,30 @@ pub fn gen_var(rng: &mut Rng, coord_max: usize, size: usize) -> (VarSet, String)
         let (ps, tags) = protos(rng, coord_max, size / ncontigs.min(3) + 4, false);
         shape.push(tags.join("+"));
         for (s, len, _) in ps {
-            // how the span is expressed: REF bases (short spans), INFO/END (< 4.5) or SVLEN (4.5)
-            let (ref_len, end, svlen, alt) = if len <= 60 && rng.chance(4, 5) {
-                (len, None, None, if rng.bool() { "T".to_string() } else { ".".to_string() })
+            // What defines the span and what the ALT column says are chosen independently (gVCF reference blocks with
+            // ALT '.', deletions written with plain bases plus END, breakends, mixed lists): REF bases (short spans),
+            // INFO/END (< 4.5), INFO/SVLEN of one symbolic SV allele or FORMAT/LEN (4.5 — there the specification ties
+            // SVLEN to symbolic SV alleles and LEN to <*>, so those two keep such an allele somewhere in the list).
+            let any_alt = |rng: &mut Rng| rng.pick(&ANY_ALT).to_string();
+            let (ref_len, end, svlen, svlen_at, flen, alt) = if len <= 60 && rng.chance(4, 5) {
+                (len, None, None, 0, None, any_alt(rng))
             } else if minor < 5 {
-                (1 + rng.below(3) as usize, Some(s + len - 1), None, "<DEL>".to_string())
+                (1 + rng.below(3) as usize, Some(s + len - 1), None, 0, None, any_alt(rng))
+            } else if sample && rng.bool() {
+                (1, None, None, 0, Some(len), rng.pick(&["<*>", "T,<*>", "<*>,TAC"]).to_string())
             } else {
                 // span s..=s+len-1 under the "POS + SVLEN - 1" reading, one more under "POS + SVLEN"
-                (1, None, Some(len), "<DEL>".to_string())
+                let (alt, at) = *rng.pick(&[("<DEL>", 0usize), ("<DUP>", 0), ("T,<DEL>", 1), ("<DEL>,T", 0), ("TAC,G,<DUP>", 2)]);
+                (1, None, Some(len), at, None, alt.to_string())
             };
             let ref_len = ref_len.min(len.max(1));
             let pad = if fat && rng.chance(1, 4) { *rng.pick(&[0usize, 500, 5000, 30_000, 70_000, 140_000]) } else { 0 };
-            recs.push(VarRec { chrom: c, pos: s, id: format!("v{k}"), ref_len, alt, end, svlen, pad });
+            *alt_classes.entry(alt_class(&alt)).or_insert(0usize) += 1;
+            recs.push(VarRec { chrom: c, pos: s, id: format!("v{k}"), ref_len, alt, end, svlen, svlen_at, len: flen, pad });
             k += 1;
         }
     }
     let (flush_after, fl) = flush_plan(rng, recs.len());
-    let shape = format!("4.{minor}|{}|{fl}|fat={fat}", shape.join(","));
-    (VarSet { minor, contigs, recs, flush_after, level: *rng.pick(&[0u8, 1, 1, 6]) }, shape)
+    let shape = format!("4.{minor}|{}|{fl}|fat={fat}|sample={sample}", shape.join(","));
+    (VarSet { minor, contigs, recs, flush_after, level: *rng.pick(&[0u8, 1, 1, 6]), sample }, shape)
 }
